@@ -11,7 +11,7 @@ use crate::sut::{LangCfg, LangId, LibOutcome, SrcFile, ALL_LANGS};
 use serde_json::json;
 use std::collections::BTreeSet;
 
-const UNITS: [(&str, &str); 10] = [
+const UNITS: [(&str, &str); 17] = [
     ("\n", "newline"),
     ("*/", "star-slash"),
     ("/*", "slash-star"),
@@ -22,6 +22,15 @@ const UNITS: [(&str, &str); 10] = [
     ("#", "hash"),
     ("`", "backtick"),
     ("plain words", "text"),
+    // backslash + ordinary text that a string-literal docstring would read as an escape sequence
+    ("\\u", "backslash-u"),
+    ("\\x", "backslash-x"),
+    ("\\N{", "backslash-N"),
+    // terminators glued to the characters an escaping scheme has to get right
+    ("\\\"\"\"", "backslash-triple-double-quote"),
+    ("\"\"\"\"", "four-double-quotes"),
+    ("\"", "double-quote"),
+    ("**/", "star-star-slash"),
 ];
 const POSITIONS: [&str; 7] = ["type", "field", "unit-variant", "tagged-variant", "struct-variant-field", "alias", "tagged-type"];
 
@@ -273,7 +282,7 @@ pub fn run(ctx: &Ctx) -> (Spec, Report) {
     rep.count("exhaustive_unit_sequences", n_exh as u64);
     let spec = Spec {
         level: "exploration",
-        rule: format!("doc strings built from the units {{newline, */, /*, //, \"\"\", ''', backslash, #, backtick, plain text}} with a sentinel after every unit: all {n_exh} sequences of length 1-3 (positions cycled), then random sequences up to length 12; written as ///, /** */ or #[doc = \"..\"], optionally followed by further doc lines; attached to type, field, unit-enum variant, tagged-enum variant, struct-variant field or alias; 6 languages; every sentinel occurrence in the output is classified by the language's tokeniser (CPython tokenize/ast for Python) and must lie in a comment/docstring; the output must tokenise, parse and define exactly what the doc-free twin defines; distinct = (language, position, doc spelling, unit sequence)"),
+        rule: format!("doc strings built from the units {{newline, */, /*, //, \"\"\", ''', backslash, #, backtick, plain text, \\u, \\x, \\N{{, \\\"\"\", \"\"\"\", \", **/}} with a sentinel after every unit: all {n_exh} sequences of length 1-3 (positions cycled), then random sequences up to length 12; written as ///, /** */ or #[doc = \"..\"], optionally followed by further doc lines; attached to type, field, unit-enum variant, tagged-enum variant, struct-variant field or alias; 6 languages; every sentinel occurrence in the output is classified by the language's tokeniser (CPython tokenize/ast for Python) and must lie in a comment/docstring; the output must tokenise, parse and define exactly what the doc-free twin defines; distinct = (language, position, doc spelling, unit sequence)"),
         assumptions: vec!["comment/docstring spans come from this harness's lexers and from CPython".into()],
         exhaustive: Some(true),
     };
